@@ -143,7 +143,15 @@ pub fn agent_script<W: Write>(w: &mut W, st: &mut EStats, id: u64, g: &mut Sm, m
                 run.op(t, &mut rng, &EOp::Step);
             } else if s == 0 && g.chance(2, 3) {
                 let (pb, pa) = if !trading0 && g.chance(2, 3) { (27, 20) } else { (20, 24) };   // crossed while nothing can trade
+                // one book in eight sits at the very bottom of the price range: the best ask one tick above zero,
+                // no bid or a bid at price 0 (the observed mid-price is then below one tick)
+                let bottom = g.chance(1, 8);
                 for a in 0..assets {
+                    if bottom {
+                        if g.chance(1, 2) { run.op(t, &mut rng, &EOp::Place { a, bid: true, vol: 50, trader: 999, price: Some(0) }); }
+                        run.op(t, &mut rng, &EOp::Place { a, bid: false, vol: 50, trader: 999, price: Some(ticks[a]) });
+                        continue;
+                    }
                     if g.chance(3, 4) { run.op(t, &mut rng, &EOp::Place { a, bid: true, vol: 50, trader: 999, price: Some(pb * ticks[a]) }); }
                     if g.chance(3, 4) { run.op(t, &mut rng, &EOp::Place { a, bid: false, vol: 50, trader: 999, price: Some(pa * ticks[a]) }); }
                 }
